@@ -257,6 +257,11 @@ func (s *Sim) releaseOp(i int) {
 			}
 		}
 	}
+	if s.race && s.isDirect(op) && s.curBase() == nil {
+		s.log(Rec{Kind: "skipped", Op: i + 1, S: "direct call before the first SetClient"})
+		return
+	}
+	s.mu.Lock()
 	a := s.actors[op.Actor]
 	if a == nil {
 		a = &actor{id: op.Actor, ch: make(chan int, len(s.sc.Ops)+1)}
@@ -267,6 +272,7 @@ func (s *Sim) releaseOp(i int) {
 			}
 		}()
 	}
+	s.mu.Unlock()
 	a.ch <- i
 }
 
@@ -379,7 +385,11 @@ func (s *Sim) execOp(i int) {
 	case "publish":
 		m := &mqtt.Message{Topic: op.Topic, QoS: mqtt.QoS(op.QoS), Retain: op.Retain, Payload: s.payload(op), ID: op.PresetID}
 		err = cli.Publish(ctx, m)
-		extra = fmt.Sprintf("id=%d", m.ID)
+		if base != nil {
+			// the retrying client keeps the message and fills it in later, on its
+			// own goroutine: only a BaseClient caller may look at it again
+			extra = fmt.Sprintf("id=%d", m.ID)
+		}
 	case "subscribe":
 		subs := make([]mqtt.Subscription, len(op.Subs))
 		for j, sr := range op.Subs {
@@ -432,6 +442,33 @@ func (s *Sim) execOp(i int) {
 		}
 		b := s.baseFor(op.Cli)
 		err = rh.Retry(ctx, b)
+	case "probe":
+		// read-only API surface, from any goroutine at any time
+		for it := 0; it < op.Repeat; it++ {
+			if s.retry != nil {
+				_ = s.retry.Stats()
+				if b := s.retry.Client(); b != nil {
+					_ = b.Err()
+					_ = b.Stats()
+				}
+			}
+			runtimeGosched()
+		}
+		switch cfg.Client {
+		case "base":
+			b := s.baseFor(op.Cli)
+			_ = b.Err()
+			_ = b.Done()
+			_ = b.Stats()
+		default:
+			if b := s.retry.Client(); b != nil {
+				_ = b.Err()
+				_ = b.Done()
+				_ = b.Stats()
+			}
+			st := s.retry.Stats()
+			extra = fmt.Sprintf("tasks=%d retries=%d", st.QueuedTasks, st.QueuedRetries)
+		}
 	case "muxserve":
 		s.muxServe(i, op)
 	case "stats":
@@ -544,7 +581,7 @@ func (s *Sim) judgeSnapshot() {
 		}
 		c.mu.Lock()
 		r := Rec{Kind: "connstat", Conn: c.k, B: c.peerClosed == 0 && !c.localClosed, V: int64(c.readers), N: c.maxReadReq,
-			S: fmt.Sprintf("peer=%d local=%v closecalls=%d", c.peerClosed, c.localClosed, c.closeCalls)}
+			S: fmt.Sprintf("peer=%d local=%v closecalls=%d wbuf=%d writedead=%v", c.peerClosed, c.localClosed, c.closeCalls, len(c.wbuf), c.writeDead)}
 		c.mu.Unlock()
 		s.log(r)
 	}
